@@ -481,7 +481,7 @@ func init() {
 		Level: "model_checking",
 		Rule: "every script of <=2 (thorough <=3) statements over 16 statements (add_key with int/str/float, set_tag, drop_key, rename, set_measurement literal and from a key with delete, default_time with and without zone, use of a sibling, exit, a run-time error, a load error, cast) " +
 			"x 12 inputs (text, a JSON log line, empty text, blank text, multi-line text; line protocol with a small explicit timestamp, line protocol with tags, without tags, without timestamp, with two points, with leading comment and blank lines, with a newline inside a string field) x {workspace directory with a symlinked .p sibling, a .ppl sibling, two scripts that do not load (neither selected nor used), a non-script file and a directory named like a script; single file} x {json, lineprotocol} x {run, check only}, through the real binary " +
-			"(quick: every script with a rotating 1/13 of the input x configuration grid; thorough: the full grid for <=2 statements); oracle: stdout after the marker parsed back and compared with the same script and input run through the library API (measurement, tags, fields, time), errors reported and no output block, check-only prints nothing",
+			"(quick: every script with a rotating 1/19 of the input x configuration grid; thorough: the full grid for <=2 statements); oracle: stdout after the marker parsed back and compared with the same script and input run through the library API (measurement, tags, fields, time), errors reported and no output block, check-only prints nothing",
 		Assumptions: []string{"the influx line-protocol codec is trusted for parsing input and output", "text input: measurement default_name is pinned; time without an explicit timestamp is accepted within the invocation's wall-clock bracket +-2 s"},
 		Run:            c20Run,
 		Replay:         c20Replay,
